@@ -14,6 +14,7 @@ import I18n.Driver.Hdr
 import I18n.Driver.Po
 import I18n.Driver.Deb
 import I18n.Driver.PyBrace
+import I18n.Driver.Pipeline
 /- Line-protocol driver: `<model> <op> <args…>` per line on stdin, one canonical line per op on stdout. -/
 open I18n.Driver
 
@@ -36,6 +37,7 @@ def step (line : String) : String :=
   | "deb" :: op :: args => Deb.handle op args
   | "pybrace" :: op :: args => PyBrace.handle op args
   | "perlbrace" :: op :: args => PyBrace.handlePerl op args
+  | "pipeline" :: op :: args => Pipeline.handle op args
   | _ => "bad-op"
 
 partial def loop (h : IO.FS.Stream) (out : IO.FS.Stream) : IO Unit := do
